@@ -18,6 +18,7 @@ FEATURE_MIXES = [
     ("int", "bool", "array", "guard"),
     ("int", "bool", "assert_"),
     ("int", "fxp", "bool", "assert_"),
+    ("int", "bool", "hash", "guard"),
 ]
 
 RULES = {
